@@ -347,18 +347,19 @@ def edit_constant(parameterized):
     updated = []
     for pname, pobj in (kls_params | inst_params).items():
         if pobj.constant:
+            # Only this object becomes editable: use its own copy of the
+            # Parameter (created on demand) and leave alone the class-level
+            # Parameter, which all other instances and subclasses share. The
+            # class-level one is only used where instance Parameters are
+            # not supported.
+            pobj = parameterized.param[pname]
             pobj.constant = False
-            updated.append(pname)
+            updated.append(pobj)
     try:
         yield
     finally:
-        for pname in updated:
-            # Some operations trigger a parameter instantiation (copy),
-            # we ensure both the class and instance parameters are reset.
-            if pname in kls_params:
-                type(parameterized).param[pname].constant=True
-            if pname in inst_params:
-                parameterized.param[pname].constant = True
+        for pobj in updated:
+            pobj.constant = True
 
 
 @contextmanager
